@@ -236,6 +236,54 @@ func simHistory(tw *trace.Writer, rng *rand.Rand, cs string, nops int, encRunes 
 			r.drain(false)
 		}
 	}
+	// a burst longer than the event queue, injected by a test goroutine that runs ahead of the reader: the injection
+	// waits for room, nothing is dropped
+	r.drain(false)
+	burst := []byte("the quick brown fox jumps")
+	okc := make(chan bool, 1)
+	go func() { okc <- s.InjectKeyBytes(burst) }()
+	time.Sleep(30 * time.Millisecond)
+	evs := []interface{}{}
+	evc := make(chan tcell.Event)
+	stop := make(chan struct{})
+	go func() {
+		for {
+			ev := s.PollEvent()
+			if ev == nil {
+				return
+			}
+			select {
+			case evc <- ev:
+			case <-stop:
+				return
+			}
+		}
+	}()
+	deadline := time.After(3 * time.Second)
+collect:
+	for len(evs) < len(burst) {
+		select {
+		case ev := <-evc:
+			if _, isKey := ev.(*tcell.EventKey); isKey {
+				evs = append(evs, evJSON(ev))
+			}
+		case <-deadline:
+			break collect
+		}
+	}
+	ok := false
+	select {
+	case ok = <-okc:
+	case <-time.After(time.Second):
+	}
+	close(stop)
+	s.PostEvent(tcell.NewEventInterrupt(nil)) // lets the collector leave PollEvent
+	exp := []interface{}{}
+	for _, c := range burst {
+		exp = append(exp, []interface{}{"key", int(tcell.KeyRune), int(c), 0})
+	}
+	tw.Emit(trace.Ev{"ev": "Inject", "what": "burst", "ok": ok, "expect": exp, "bytes": trace.Ints(burst)})
+	tw.Emit(trace.Ev{"ev": "Drain", "evs": evs, "aftershow": false})
 	return r.ops, nil
 }
 
